@@ -272,6 +272,29 @@ class SubSession:
         sub.is_subscribed = True
         return sub
 
+    def _subscribe(self, rec):
+        from sdc11073.consumer.subscription import ConsumerSubscription
+        from sdc11073.xml_types import eventing_types as evt
+        from sdc11073.xml_types.dpws_types import DeviceEventingFilterDialectURI
+        i = rec['id'] if 'id' in rec else rec['j']
+        port = CLIENT_PORT[rec['c']]
+        actions = {'metric': self.defs.Actions.EpisodicMetricReport, 'alert': self.defs.Actions.EpisodicAlertReport}
+        ft = evt.FilterType()
+        ft.text = ' '.join(actions[a] for a in sorted(rec['f']))
+        ft.Dialect = DeviceEventingFilterDialectURI.ACTION
+        end_to = f'http://127.0.0.1:{port + END_PORT_OFFSET}/sink/end/{i}' if rec['endTo'] else None
+        sub = ConsumerSubscription(self.factory, self.defs.data_model, lambda addr: self.client, self.hosted, ft,
+                                   f'http://127.0.0.1:{port}/sink/notify/{i}', end_to, '')
+        self.strip_expires = not rec['req']
+        try:
+            sub.subscribe(expires=rec['req'] * TICK if rec['req'] else 60)
+        finally:
+            self.strip_expires = False
+        ok = sub.is_subscribed
+        if ok:
+            self.subs[i] = sub
+        return ok, sub
+
     def step(self, rec):
         from sdc11073.consumer.subscription import ConsumerSubscription
         from sdc11073.xml_types import eventing_types as evt
@@ -279,23 +302,7 @@ class SubSession:
         act = rec['act']
         before = len(self.net.log)
         if act == 'Subscribe':
-            i = rec['id']
-            port = CLIENT_PORT[rec['c']]
-            actions = {'metric': self.defs.Actions.EpisodicMetricReport, 'alert': self.defs.Actions.EpisodicAlertReport}
-            ft = evt.FilterType()
-            ft.text = ' '.join(actions[a] for a in sorted(rec['f']))
-            ft.Dialect = DeviceEventingFilterDialectURI.ACTION
-            end_to = f'http://127.0.0.1:{port + END_PORT_OFFSET}/sink/end/{i}' if rec['endTo'] else None
-            sub = ConsumerSubscription(self.factory, self.defs.data_model, lambda addr: self.client, self.hosted, ft,
-                                       f'http://127.0.0.1:{port}/sink/notify/{i}', end_to, '')
-            self.strip_expires = not rec['req']
-            try:
-                sub.subscribe(expires=rec['req'] * TICK if rec['req'] else 60)
-            finally:
-                self.strip_expires = False
-            ok = sub.is_subscribed
-            if ok:
-                self.subs[i] = sub
+            ok, sub = self._subscribe(rec)
             return self._rec(rec, res='ok' if ok else 'fault', req=rec['req'] * 100,
                              granted=int(round(sub.granted_expires * 100)) if ok else -1)
         if act == 'Renew':
@@ -341,6 +348,8 @@ class SubSession:
             finally:
                 self.fail = {}
             return self._rec(rec, res='ok')
+        if act == 'ReportDuring' and rec['ev'] == 'Subscribe':
+            return self._report_during_subscribe(rec)
         if act == 'ReportDuring':
             ev = rec['ev']
             if ev == 'Unsubscribe' and self.async_mgr:
@@ -374,6 +383,72 @@ class SubSession:
             out = self._rec(rec, res='ok')
             return out
         raise MachineryError(f'unmodelled action {act}')
+
+    def _report_during_subscribe(self, rec):
+        """A Subscribe is served by 'another thread' at the moment the manager leaves the locked section in which it
+        selected the subscribers of the report (sync managers); the async managers select and send inside one locked
+        section, there the request is served just before."""
+        import threading
+        result = {}
+
+        def do_subscribe():
+            ok, sub = self._subscribe(rec)
+            result.update(ok=ok, granted=int(round(sub.granted_expires * 100)) if ok else -1)
+        table = self.mgr._subscriptions  # noqa: SLF001
+        real = table._lock  # noqa: SLF001
+        me = threading.get_ident()
+
+        class HookLock:
+            def __init__(self):
+                self.depth = 0
+                self.fired = False
+
+            def acquire(self, *a, **kw):
+                ok = real.acquire(*a, **kw)
+                if ok and threading.get_ident() == me:
+                    self.depth += 1
+                return ok
+
+            def release(self):
+                real.release()
+                if threading.get_ident() == me:
+                    self.depth -= 1
+                    if self.depth == 0 and not self.fired and session.in_commit:
+                        self.fired = True
+                        do_subscribe()
+
+            def __enter__(self):
+                self.acquire()
+                return self
+
+            def __exit__(self, *a):
+                self.release()
+                return False
+        session = self
+        self.in_commit = False
+        hook = HookLock()
+        if self.async_mgr:
+            do_subscribe()
+        else:
+            table._lock = hook  # noqa: SLF001
+        self.tok += 1
+        m = self.pair.mdib
+        try:
+            self.in_commit = True
+            if rec['a'] == 'metric':
+                with m.metric_state_transaction() as mgr:
+                    apply_tok(mgr.get_state('numeric.ch0.vmd0'), self.tok)
+            else:
+                with m.alert_state_transaction() as mgr:
+                    apply_tok(mgr.get_state('ac0.vmd0.mds0'), self.tok)
+        finally:
+            self.in_commit = False
+            table._lock = real  # noqa: SLF001
+        if not result:
+            do_subscribe()       # (the manager never came to select subscribers: the request is simply served afterwards)
+        out = self._rec(rec, res='ok', evres='ok' if result.get('ok') else 'fault', granted=result.get('granted', -1),
+                        req=rec['req'] * 100)
+        return out
 
     def run(self, beh):
         self.stopped = False
